@@ -195,6 +195,7 @@ type vc02Gate struct {
 	cur       int
 	expect    bool // size limit reached, commit must follow
 	failedSinceCommit bool // an Add/Rm returned an error since the last commit call
+	stopping  bool // Shutdown has been called: the worker's commits are recorded as "stopcommit"
 }
 
 type vc02CtxKey struct{}
@@ -280,6 +281,9 @@ func (g *vc02Gate) Rm(ctx context.Context, c cid.Cid) error {
 func (g *vc02Gate) Commit(ctx context.Context) error {
 	g.mu.Lock()
 	ev := &vc02Ev{Kind: "commit", At: g.since()}
+	if g.stopping {
+		ev.Kind = "stopcommit"
+	}
 	g.trace = append(g.trace, ev)
 	g.inCall = true
 	g.expect = false
@@ -545,6 +549,55 @@ func newVC02PeerOn(t *testing.T, h host.Host, psub *pubsub.PubSub, dht *dual.DHT
 		cc.batchingState = p.g // before any item is submitted: the worker reads the field after receiving from the channel
 	}
 	return p
+}
+
+// restart: Shutdown, then a new Consensus on the same datastore and namespace (a new libp2p host: the old one is closed by
+// Shutdown). The gate, its trace and the tracker go on. `between` runs after Shutdown returned and before the new start.
+func (p *vc02Peer) restart(t *testing.T, between func(old *Consensus)) {
+	old := p.cc
+	oldCfg := old.config
+	if p.g != nil {
+		p.g.mu.Lock()
+		p.g.stopping = true
+		p.g.holdNext = false
+		if p.g.holding { // Shutdown waits for the worker: it must not stay held inside Add/Rm
+			p.g.holding = false
+			close(p.g.release)
+		}
+		p.g.mu.Unlock()
+	}
+	p.shutdown()
+	if between != nil {
+		between(old)
+	}
+	h, psub, dht := makeTestingHost(t)
+	cfg := &Config{}
+	cfg.Default()
+	cfg.DatastoreNamespace = oldCfg.DatastoreNamespace
+	cfg.hostShutdown = true
+	cfg.Batching = oldCfg.Batching
+	cfg.TrustAll = oldCfg.TrustAll
+	cfg.TrustedPeers = oldCfg.TrustedPeers
+	cfg.ClusterName = oldCfg.ClusterName
+	cfg.RebroadcastInterval = oldCfg.RebroadcastInterval
+	cc, err := New(h, dht, psub, cfg, p.fds)
+	if err != nil {
+		t.Fatal("cannot create Consensus again:", err)
+	}
+	cc.SetClient(vc02RPCClient(p.tr))
+	select {
+	case <-cc.Ready(context.Background()):
+	case <-time.After(60 * time.Second):
+		t.Fatal("consensus not ready after restart")
+	}
+	p.cc = cc
+	if p.g != nil {
+		p.g.mu.Lock()
+		p.g.BatchingState = cc.batchingState
+		p.g.stopping, p.g.cur, p.g.expect, p.g.inCall, p.g.failedSinceCommit = false, 0, false, false, false
+		p.g.mu.Unlock()
+		cc.batchingState = p.g
+	}
 }
 
 func (p *vc02Peer) shutdown() {
